@@ -864,6 +864,206 @@ func f6Probe(r *Rng, o *Out) {
 		strings.Join(outs, " | "))
 }
 
+// tpAttenuationEpisode: third-party caveats added THROUGH the bundle.  One permission token
+// (unverified / verified / failed), attenuated with a fresh third-party caveat — alone, mixed with
+// plain caveats, two at once, or for a location the token already has (Add refuses: all or nothing)
+// — then Validate WITHOUT re-verifying (a verified token's verified set has gained the third-party
+// caveat itself, which clears nothing), Verify without the discharge (must fail), Discharge for that
+// location + Verify (must succeed and impose the discharge's caveats), printing and re-parsing.
+func (w *bWorld) tpAttenuationEpisode() {
+	r, o := w.r, w.o
+	ctx := context.Background()
+	var bs []*bundle.Bundle
+	var ops, outs []string
+	defer func() {
+		if p := recover(); p != nil {
+			msg := strings.ReplaceAll(strings.SplitN(fmt.Sprint(p), "\n", 2)[0], " ", "_")
+			o.emit(fmt.Sprintf("(bundle.run (scope %s) %s %s %s %s)", bundleScope, w.sxKeys(), sxTrust(w.trusted), hs(w.permLoc), strings.Join(ops, " ")), "panic:"+msg)
+		}
+	}()
+	step := func(op, out string) {
+		ops = append(ops, op)
+		outs = append(outs, out+"~"+statesStr(bs))
+	}
+	kid := w.kids[0]
+	m, err := macaroon.New(kid, w.permLoc, w.keys[string(kid)])
+	if err != nil {
+		panic(err)
+	}
+	m.Add(&flyio.Organization{ID: 1, Mask: resset.ActionAll})
+	parts := []string{}
+	hasA := r.Chance(1, 2)
+	pa := w.tps[0]
+	if hasA { // the token already carries (and the header discharges) a third-party caveat for A
+		it, err := newTP(pa.ka, pa.loc)
+		if err != nil {
+			panic(err)
+		}
+		if err := m.Add(it.cav); err != nil {
+			panic(err)
+		}
+		_, dm, err := macaroon.DischargeTicket(pa.ka, pa.loc, it.tp.ticket)
+		if err != nil {
+			panic(err)
+		}
+		parts = append(parts, b64tok(w.label(), mustEnc(dm)))
+	}
+	state := pick(r, []string{"unverified", "verified", "verified", "failed"})
+	raw := mustEnc(m)
+	if state == "failed" {
+		m2, _ := macaroon.Decode(raw)
+		m2.Tail[0] ^= 1
+		raw = mustEnc(m2)
+	}
+	parts = append(parts, b64tok("fm2", raw))
+	if r.Bool() {
+		parts[0], parts[len(parts)-1] = parts[len(parts)-1], parts[0]
+	}
+	hdr := "FlyV1 " + strings.Join(parts, ",")
+	mkReq := func(act resset.Action) (macaroon.Access, string) {
+		d := r.Dyn()
+		d.WF = ""
+		d.NowSec, d.NowNsec = baseNow, 0
+		d.Org = p64(1)
+		d.Action = act
+		return d.As("org"), d.Sx("org")
+	}
+	readAcc, readSx := mkReq(resset.ActionRead)
+	writeAcc, writeSx := mkReq(resset.ActionWrite)
+	validate := func(i int, acc macaroon.Access, sx string) {
+		err := bs[i].Validate(acc)
+		o.count("tp3.validate." + flagStr(err))
+		step(fmt.Sprintf("(validate %d %s)", i, sx), flagStr(err))
+	}
+	verify := func(i int) {
+		cs, err := bs[i].Verify(ctx, w.resolver())
+		o.count("tp3.verify." + flagStr(err))
+		step(fmt.Sprintf("(verify %d)", i), setsStr(cs, err))
+	}
+
+	b, perr := bundle.ParseBundle(w.permLoc, hdr)
+	bs = append(bs, b)
+	e := "n"
+	if perr != nil {
+		e = "e"
+	}
+	step(fmt.Sprintf("(parse %s default)", hs(hdr)), "new0:"+e)
+	if state != "unverified" {
+		verify(0)
+	}
+	validate(0, readAcc, readSx)
+
+	// the attenuation
+	late := []tpParty{{"https://late.example", r.Bytes(32)}, {"https://later.example", r.Bytes(32)}}
+	variant := pick(r, []string{"tp", "tp", "plain+tp", "tp+plain", "tp+tp", "tp.existing", "plain+tp.existing"})
+	if !hasA && strings.HasSuffix(variant, "existing") {
+		variant = "tp"
+	}
+	plain := func() addItem {
+		return addItem{cav: &flyio.Organization{ID: 1, Mask: resset.ActionRead | resset.ActionWrite}}
+	}
+	tp := func(p tpParty) addItem {
+		var tc []macaroon.Caveat
+		if r.Chance(1, 3) {
+			tc = append(tc, w.cav())
+		}
+		it, err := newTP(p.ka, p.loc, tc...)
+		if err != nil {
+			panic(err)
+		}
+		return it
+	}
+	var items []addItem
+	switch variant {
+	case "tp":
+		items = []addItem{tp(late[0])}
+	case "plain+tp":
+		items = []addItem{plain(), tp(late[0])}
+	case "tp+plain":
+		items = []addItem{tp(late[0]), plain()}
+	case "tp+tp":
+		items = []addItem{tp(late[0]), tp(late[1])}
+	case "tp.existing":
+		items = []addItem{tp(pa)}
+	default:
+		items = []addItem{plain(), tp(pa)}
+	}
+	o.count("tp3.variant." + variant + "." + state)
+	{
+		cavs := make([]macaroon.Caveat, len(items))
+		for j, it := range items {
+			cavs[j] = it.cav
+		}
+		err := b.Attenuate(cavs...)
+		sx := make([]string, len(items))
+		for j, it := range items {
+			if it.tp == nil {
+				sx[j] = "(c " + sxCav(it.cav) + ")"
+				continue
+			}
+			nonce := make([]byte, 12)
+			if err == nil {
+				for _, mm := range macsOf(b) {
+					if !b.IsPermissionToken(mm) {
+						continue
+					}
+					for _, c := range mm.UnsafeCaveats().Caveats {
+						if c3, ok := c.(*macaroon.Caveat3P); ok && string(c3.Ticket) == string(it.tp.ticket) && len(c3.VerifierKey) >= 12 {
+							nonce = c3.VerifierKey[:12]
+						}
+					}
+				}
+			}
+			sx[j] = fmt.Sprintf("(new3p %s %s %s %s)", hs(it.tp.loc), hx(it.tp.ticket), hx(it.tp.rn), hx(nonce))
+		}
+		o.count("tp3.attenuate." + flagStr(err))
+		step(fmt.Sprintf("(attenuate 0 %s)", strings.Join(sx, " ")), flagStr(err))
+	}
+	// without re-verifying: a verified token now carries the third-party caveat in its verified set
+	validate(0, readAcc, readSx)
+	if r.Bool() {
+		step("(header 0)", hs(b.Header()))
+	}
+	if r.Chance(1, 3) {
+		accs, fsx := []macaroon.Access{readAcc}, readSx
+		n := b.Count(bundle.AllowsAccess(accs...))
+		step(fmt.Sprintf("(count 0 (allows %s))", fsx), fmt.Sprint(n))
+	}
+	// the discharge is missing: verification must fail
+	verify(0)
+	validate(0, readAcc, readSx)
+	// discharge for the new location(s), then it verifies again and the discharge's caveats are imposed
+	ro := resset.ActionRead
+	for _, p := range late {
+		before := b.Len()
+		err := b.Discharge(p.loc, p.ka, func(tc []macaroon.Caveat) ([]macaroon.Caveat, error) { return []macaroon.Caveat{&ro}, nil })
+		rs := ""
+		if err == nil {
+			ms := bundle.Map(b, func(t bundle.Token) bundle.Token { return t })
+			for _, t := range ms[before:] {
+				rs += " " + hx(t.(bundle.Macaroon).Nonce().Rnd)
+			}
+		}
+		o.count("tp3.discharge." + flagStr(err))
+		step(fmt.Sprintf("(discharge 0 %s %s (ok (c %s))%s)", hs(p.loc), hx(p.ka), sxCav(&ro), rs), flagStr(err))
+		if variant != "tp+tp" {
+			break
+		}
+	}
+	verify(0)
+	validate(0, readAcc, readSx)
+	validate(0, writeAcc, writeSx)
+	// print and re-parse
+	bs = append(bs, b.Clone())
+	step("(clone 0)", "new1")
+	verify(1)
+	validate(1, readAcc, readSx)
+	validate(1, writeAcc, writeSx)
+	o.emit(fmt.Sprintf("(bundle.run (scope %s) %s %s %s %s)", bundleScope, w.sxKeys(), sxTrust(w.trusted), hs(w.permLoc), strings.Join(ops, " ")),
+		strings.Join(outs, " | "))
+	w.specBundle(bs[0].Header())
+}
+
 func famBundle(r *Rng, o *Out, tier string) {
 	f6Probe(r, o)
 	n := 150
@@ -875,6 +1075,7 @@ func famBundle(r *Rng, o *Out, tier string) {
 		for k := 0; k < 3; k++ {
 			w.episode()
 		}
+		w.tpAttenuationEpisode()
 	}
 }
 
